@@ -220,6 +220,22 @@ fn lzma2_stream(data: &[u8], lc: u32, lp: u32, pieces: usize) -> Vec<u8> {
     w.finish().unwrap()
 }
 
+/// `lzma2_stream` of the first half of `data`, followed (when `second` is given) by a stream of the
+/// second half written with other lc/lp; the first stream's end marker is dropped, so that the
+/// result is ONE valid LZMA2 stream whose properties change at a dictionary reset.
+fn lzma2_stream2(data: &[u8], lc: u32, lp: u32, pieces: usize, second: Option<(u32, u32)>) -> Vec<u8> {
+    match second {
+        None => lzma2_stream(data, lc, lp, pieces),
+        Some((lc2, lp2)) => {
+            let h = data.len() / 2;
+            let mut s = lzma2_stream(&data[..h], lc, lp, pieces);
+            assert_eq!(s.pop(), Some(0));
+            s.extend_from_slice(&lzma2_stream(&data[h..], lc2, lp2, 1));
+            s
+        }
+    }
+}
+
 /// number of chunks of an LZMA2 stream that carry new properties (control >= 0xC0)
 fn count_props_chunks(s: &[u8]) -> usize {
     let (mut i, mut n) = (0usize, 0usize);
@@ -386,6 +402,14 @@ pub fn gen(rng: &mut Rng, tier: &str, dist: &mut Dist) -> Vec<String> {
             let np = count_props_chunks(&lzma2_stream(&sample_data(len), lc, lp, pieces));
             cmds.push(format!("al_dec2 {ck} {d} {} {np} {lc} {lp} {len} {pieces}", lc + lp));
             dist.bump(&format!("al_dec2.nprops{}", np.min(2)));
+        }
+        // the properties CHANGE in mid-stream (two streams joined, the first without its end marker):
+        // the tables of the previous decoder must be gone before the next ones are allocated
+        for ((lc, lp), (lc2, lp2)) in [((4u32, 0u32), (3u32, 1u32)), ((3, 1), (4, 0)), ((0, 0), (4, 0)), ((4, 0), (0, 0)), ((2, 2), (0, 4)), ((3, 0), (3, 0))] {
+            let (len, pieces) = *rng.pick(&[(2usize, 1usize), (100, 1), (5000, 1), (20000, 4), (30000, 6)]);
+            let np = count_props_chunks(&lzma2_stream2(&sample_data(len), lc, lp, pieces, Some((lc2, lp2))));
+            cmds.push(format!("al_dec2 {ck} {d} {} {np} {lc} {lp} {len} {pieces} {lc2} {lp2}", (lc + lp).max(lc2 + lp2)));
+            dist.bump("al_dec2.props_change");
         }
     }
     // small dictionaries announced in headers (below the 4 KiB minimum)
@@ -563,8 +587,10 @@ pub fn exec(a: &[&str]) -> (String, String) {
             let np_claimed: usize = p(a[4]);
             let (lc, lp, len, pieces): (u32, u32, usize, usize) = (p(a[5]), p(a[6]), p(a[7]), p(a[8]));
             let data = sample_data(len);
-            let stream = lzma2_stream(&data, lc, lp, pieces);
-            if count_props_chunks(&stream) != np_claimed || a[3] != (lc + lp).to_string() {
+            let second: Option<(u32, u32)> = if a.len() > 10 { Some((p(a[9]), p(a[10]))) } else { None };
+            let stream = lzma2_stream2(&data, lc, lp, pieces, second);
+            let lclp = second.map_or(lc + lp, |(c, l)| (lc + lp).max(c + l));
+            if count_props_chunks(&stream) != np_claimed || a[3] != lclp.to_string() {
                 return ("HARNESS-INCONSISTENT".into(), "FAIL the command line does not describe the stream the harness builds".into());
             }
             let est = guarded(|| Ok(lzma2_get_memory_usage(dict)));
